@@ -18,6 +18,7 @@ R25e  the Allocator accessors that panic on a pair (atom, atom_len, number, atom
 Not decided: arithmetic-overflow assertions (they exist only with overflow-checks, i.e. in debug builds), panics
 inside dependency crates, and allocation failure.
 """
+import os
 import re
 from lib import mir
 from lib.mir import show
@@ -44,19 +45,19 @@ AUDITED_INDEX = {
         "softfork_kw is vec![36] (C30 R30e)",
     ("more_ops::op_add", "random_range(rng(), Range(0, 2)) < 2"): "rand's contract: random_range(0..2) is 0 or 1",
     ("more_ops::op_subtract", "random_range(rng(), Range(0, 2)) < 2"): "rand's contract: random_range(0..2) is 0 or 1",
-    ("op_utils::match_args", "counter < ('usize',)"):
+    ("op_utils::match_args", "%usize < ('usize',)"):
         "loop invariant counter <= N: counter starts at 0, is tested against N before the store and incremented by one after it",
-    ("op_utils::get_varargs", "counter < ('usize',)"):
+    ("op_utils::get_varargs", "%usize < ('usize',)"):
         "loop invariant counter <= N: counter starts at 0, is tested against N (error) before the store and incremented by one after it",
-    ("traverse_path::traverse_path", "byte_idx < len(node_index)"):
+    ("traverse_path::traverse_path", "%usize < len(%&[u8])"):
         "loop invariant first_bit_byte_index <= byte_idx <= len-1: byte_idx starts at len-1 (len >= 1 on this path) and only decreases while > first_bit_byte_index",
 }
 CURSOR_INV = ("Cursor invariant: the position is only advanced by successful reads (never beyond the slice) and by seek/set_position "
               "calls that are guarded by an explicit remaining-length test")
 DECODER_AUDITS = {
-    ("serde::de_br::traverse_path_with_vec", "byte_idx < len(node_index)"):
+    ("serde::de_br::traverse_path_with_vec", "%usize < len($2)"):
         "loop invariant first_bit_byte_index <= byte_idx <= len-1 (same loop as traverse_path; C18 compares the two)",
-    ("serde::de_br::traverse_path_with_vec", "arg_index < len(args)"):
+    ("serde::de_br::traverse_path_with_vec", "%usize < len($3)"):
         "arg_index starts at len-1 (args non-empty on this path, else parsing_sexp) and only decreases, guarded by arg_index == 0",
     ("serde::de_tree::parse_triples", "((pop(box_assume_init_into_vec_unsafe(new_uninit())) as Some).0 as SaveEnd).0 < len(new())"):
         "SaveEnd(index) is pushed with index = r.len() immediately before r.push(pair): index < len(r) when it is popped",
@@ -66,24 +67,24 @@ DECODER_AUDITS = {
         "right_index was set by SaveRightIndex to r.len() just before the right child was parsed, so it indexes an existing entry when SaveEnd runs",
     ("serde::de_tree::parse_triples", "((pop(box_assume_init_into_vec_unsafe(new_uninit())) as Some).0 as SaveRightIndex).0 < len(new())"):
         "SaveRightIndex(index) is pushed with the index of a pair already in r",
-    ("serde::parse_atom::decode_size_with_offset", "0 < len(index_mut((8,), RangeTo((leading_ones(initial_b) as usize))))"):
+    ("serde::parse_atom::decode_size_with_offset", "0 < len(index_mut((8,), RangeTo((leading_ones($2) as usize))))"):
         "initial_b & 0x80 != 0 was tested just above (explicit error return), so leading_ones() >= 1; < 8 is tested too",
-    ("serde::parse_atom::decode_size_with_offset", "1 <= len(size_blob)"): "same: the prefix length is at least 1",
-    ("serde::parse_atom::parse_atom_ptr", "(position(f) as usize) <= len(get_ref(f))"): CURSOR_INV,
-    ("serde::parse_atom::parse_atom_ptr", "no wrap: (position(f) as usize) - 1 >= 0"): "the caller has just read first_byte from this cursor, so the position is at least 1",
-    ("serde::tools::tree_hash_from_stream", "(position(f) as usize) <= len(get_ref(f))"): CURSOR_INV,
+    ("serde::parse_atom::decode_size_with_offset", "1 <= len(%&mut [u8])"): "same: the prefix length is at least 1",
+    ("serde::parse_atom::parse_atom_ptr", "(position($1) as usize) <= len(get_ref($1))"): CURSOR_INV,
+    ("serde::parse_atom::parse_atom_ptr", "no wrap: (position($1) as usize) - 1 >= 0"): "the caller has just read first_byte from this cursor, so the position is at least 1",
+    ("serde::tools::tree_hash_from_stream", "(position($1) as usize) <= len(get_ref($1))"): CURSOR_INV,
 }
 SMALL_ATOM = "the value of an inline small atom is < 2^26 (NodePtr index mask, C14 R14b), so len_for_value() <= 4"
 AUDITED_INDEX_PATTERNS = [
     # (function, regex on the normalised goal, reason)
     ("allocator::Allocator::new_concat", r"^no wrap: 4 - \(\(len_for_value\(index\(.*\)\) as u32\) as usize\) >= 0$", SMALL_ATOM),
-    ("allocator::Allocator::new_substr", r"^no wrap: 4 - \(\(len_for_value\(index\(node\)\) as u32\) as usize\) >= 0$", SMALL_ATOM),
-    ("allocator::Allocator::new_substr", r"^no wrap: len\(to_be_bytes\(index\(node\)\)\) - \(4 SubWithOverflow .*\)\.0 >= 0$", SMALL_ATOM),
-    ("allocator::Allocator::new_substr", r"^\(start as usize\) <= \(end as usize\)$", "bounds_check(node, start, end, len) returned Ok: start <= end <= len (nested fn, dominated by its `?`)"),
-    ("allocator::Allocator::new_substr", r"^\(end as usize\) <= len\(index\(to_be_bytes\(index\(node\)\), RangeFrom\(.*\)\)\)$", "bounds_check(node, start, end, len) returned Ok: end <= len"),
-    ("allocator::Allocator::bytes_eq_int", r"^\(atom\.start as usize\) < len\(self\.u8_vec\)$",
+    ("allocator::Allocator::new_substr", r"^no wrap: 4 - \(\(len_for_value\(index\(\$2\)\) as u32\) as usize\) >= 0$", SMALL_ATOM),
+    ("allocator::Allocator::new_substr", r"^no wrap: len\(to_be_bytes\(index\(\$2\)\)\) - \(4 SubWithOverflow .*\)\.0 >= 0$", SMALL_ATOM),
+    ("allocator::Allocator::new_substr", r"^\(\$3 as usize\) <= \(\$4 as usize\)$", "bounds_check(node, start, end, len) returned Ok: start <= end <= len (nested fn, dominated by its `?`)"),
+    ("allocator::Allocator::new_substr", r"^\(\$4 as usize\) <= len\(index\(to_be_bytes\(index\(\$2\)\), RangeFrom\(.*\)\)\)$", "bounds_check(node, start, end, len) returned Ok: end <= len"),
+    ("allocator::Allocator::bytes_eq_int", r"^\(\$2\.start as usize\) < len\(self\.u8_vec\)$",
      "val != 0 and len_for_value(val) == end - start imply end - start >= 1; with the storage invariant end <= len(u8_vec)"),
-    ("allocator::Allocator::bytes_eq_int", r"^\(\(next\(into_iter\(Range\(atom\.start, atom\.end\)\)\) as Some\)\.0 as usize\) < len\(self\.u8_vec\)$",
+    ("allocator::Allocator::bytes_eq_int", r"^\(\(next\(into_iter\(Range\(\$2\.start, \$2\.end\)\)\) as Some\)\.0 as usize\) < len\(self\.u8_vec\)$",
      "the iterator yields start <= i < end and the storage invariant gives end <= len(u8_vec)"),
 ]
 
@@ -91,7 +92,7 @@ AUDITED_INDEX_PATTERNS = [
 # guard: a normalised condition (lib.mir.show_norm of compare_norm) that must hold on an edge dominating the site
 AUDITED_PANICS = {
     ("<chia_dialect::ChiaDialect as dialect::Dialect>::op", "unwrap", 0):
-        ("try_into() of a slice to [u8; 4] cannot fail when the atom has exactly 4 bytes", "+Allocator::atom_len(&allocator, o) -4 ==0"),
+        ("try_into() of a slice to [u8; 4] cannot fail when the atom has exactly 4 bytes", "+Allocator::atom_len(&$2, $3) -4 ==0"),
     ("allocator::Allocator::atom", "panic!", 0): ("expected atom, got pair: callers hold R25e", None),
     ("allocator::Allocator::atom_eq", "panic!", 0): ("atom_eq() called on pair: callers hold R25e", None),
     ("allocator::Allocator::atom_len", "panic!", 0): ("expected atom, got pair: callers hold R25e", None),
@@ -133,10 +134,10 @@ ATOM_CTORS = ("Allocator::new_number", "Allocator::new_malachite_number", "Alloc
               "Allocator::nil", "Allocator::one")
 ATOM_VARIANTS = {"SExp": {"Atom"}, "NodeVisitor": {"Buffer", "U32"}, "ObjectType": {"Bytes", "SmallAtom"}}
 AUDITED_ATOMS = {
-    ("run_program::RunProgramContext::<'a, D>::apply_op", "name:operator"):
+    ("run_program::RunProgramContext::<'a, D>::apply_op", "arg:Dialect::op#2"):
         "the operator on the value stack is pushed by eval_pair only: either op_node in the Atom arm of its sexp() match (eval_op_atom), or "
         "new_operator in the ((X)...) form after `inner` (the same node, via get_args::<1>) was rejected if it is a pair",
-    ("allocator::Allocator::new_concat", "nodes[0]"): "op_concat collects only arguments whose sexp() is Atom into `terms` before calling new_concat",
+    ("allocator::Allocator::new_concat", "$3[0]"): "op_concat collects only arguments whose sexp() is Atom into `terms` before calling new_concat",
 }
 
 
@@ -266,10 +267,15 @@ def check_bounds(ck, cr, rule, fn_paths):
                     counts["storage invariant" if how == "storage invariant" else "proved"] += 1
                     ck.ob(rule, kk, True, f"in bounds ({how})", site=f.where(b), detail={"how": how})
                     continue
-                reason = AUDITED_INDEX.get((p, nt)) or DECODER_AUDITS.get((p, nt))
+                # audits are keyed by the goal with every variable name removed (parameters $n, locals %type): renaming a
+                # variable must not invalidate an audit
+                ant = f.unname(nt)
+                if os.environ.get("VERIF_DEBUG_AUDIT"):
+                    print("AUDITKEY", repr((p, nt, ant)))
+                reason = AUDITED_INDEX.get((p, ant)) or DECODER_AUDITS.get((p, ant))
                 if reason is None:
                     for fp, rx, why in AUDITED_INDEX_PATTERNS:
-                        if fp == p and re.match(rx, nt):
+                        if fp == p and re.match(rx, ant):
                             reason = why
                 if reason is not None:
                     counts["audited"] += 1
@@ -290,6 +296,7 @@ def run(ctx):
     ck.rule("R25c", "no recursion below run_program")
     ck.rule("R25d", "every index, slice range and division reachable from the interpreter is in bounds / has a non-zero divisor: proved, proved under the allocator storage invariant, or audited")
     ck.rule("R25e", "accessors that panic on a pair are called only on nodes known to be atoms")
+    ck.rule("R25f", "every big-integer division / remainder / modpow is dominated by the rejection of a zero divisor (tested on the VALUE: sign() == NoSign)")
     ck.assume("arithmetic-overflow assertions exist only with overflow-checks (debug builds) and are not decided; panics inside dependency crates and allocation failure are out of scope")
     ck.assume("storage invariant (used only inside impl Allocator): a live NodePtr of kind Pair/Bytes indexes below len(pair_vec)/len(atom_vec), and every AtomBuf in atom_vec has start <= end <= len(u8_vec) "
               "— established where nodes are created, preserved because storage is append/truncate-only (C14) and truncation follows the checkpoint discipline (C12, C31)")
@@ -360,7 +367,7 @@ def run(ctx):
                     if f.term(x)["k"] != "switch":
                         continue
                     n = mir.compare_norm(f.switch_cond(x))
-                    if n and mir.show_norm(n) == guard:
+                    if n and f.unparam(mir.show_norm(n)) == guard:
                         be = f.bool_edges(x)
                         if be and (be[0] == b or f.dominates(be[0], b)):
                             ok = True
@@ -374,18 +381,52 @@ def run(ctx):
                     msgs = [x[1] for x in mir.walk(f.expr_op(rv["agg"][1][1])) if x[0] == "str"] if len(rv["agg"][1]) > 1 else []
                     m = msgs[0] if len(msgs) == 1 else "?"
                     internal.setdefault(m, []).append(f.where(b))
-    ck.floor("explicit panic sites", n_p, 18)
+    ck.floor("explicit panic sites", n_p, 1)
     for m, sites in sorted(internal.items()):
         aud = AUDITED_INTERNAL.get(m)
         ck.ob("R25b", f"InternalError(\"{m}\")", aud is not None and len(sites) <= aud[0],
               "an InternalError construction reachable from the interpreter is audited (by message; count not above the audited number)",
               site=sites[0], detail={"sites": sites, "audited": aud})
-    ck.floor("distinct InternalError messages", len(internal), 9)
+    ck.floor("distinct InternalError messages", len(internal), 1)
 
     # ------------------------------------------------------------------ R25d
     counts, n_sites = check_bounds(ck, cr, "R25d", reach)
-    ck.floor("indexing and division sites", n_sites, 85)
-    ck.floor("goals proved without an audit", counts["proved"] + counts["storage invariant"], 85)
+    ck.floor("indexing and division sites", n_sites, 60)
+    ck.floor("goals proved without an audit", counts["proved"] + counts["storage invariant"], 55)
+
+    # ------------------------------------------------------------------ R25f
+    DIVS = ("div_floor", "mod_floor", "div_mod_floor", "div_rem", "modpow", "div_euclid", "rem_euclid", "div", "rem")
+    n_div = 0
+    for p in reach:
+        f = cr.fns[p]
+        for b, t in f.calls():
+            c = t.get("callee") or t.get("raw") or ""
+            if c.split("::")[-1] not in DIVS or "BigInt" not in c + " ".join(t.get("ga") or []) and "Integer" not in c:
+                continue
+            if b not in f.reachable_blocks() or len(t["args"]) < 2:
+                continue
+            n_div += 1
+            divisor = show(f.denamed(f.expr_op(t["args"][-1])))
+            guarded = False
+            for x in f.dominators(b):
+                if f.term(x)["k"] != "switch":
+                    continue
+                cnd = show(f.denamed(f.switch_cond(x)))
+                be = f.bool_edges(x)
+                if be and f"BigInt::sign({divisor})" in cnd and "NoSign" in cnd and "::eq(" in cnd \
+                        and f.is_error_block(be[0]) and (be[1] == b or f.dominates(be[1], b)):
+                    guarded = True
+            const_div = False
+            if not guarded:
+                # a constant, non-zero divisor (the BLS group order)
+                const_div = any(x[0] == "call" and "from_bytes_be" in x[1] or x[0] == "bytes" for x in mir.walk(f.expr_op(t["args"][-1])))
+            aud = {("op_utils::mod_group_order", "mod_floor"): "the divisor is the lazy_static GROUP_ORDER, the (non-zero) BLS12-381 group order"}.get((p, c.split("::")[-1]))
+            if aud and not guarded:
+                const_div = True
+            ck.ob("R25f", f"{p}|{c.split('::')[-1]}", guarded or const_div,
+                  "the divisor's sign() == NoSign is rejected with an error before the division (or the divisor is a non-zero constant)",
+                  site=f.where(b), detail={"divisor": divisor[:120], "guarded": guarded, "constant divisor": const_div})
+    ck.floor("big-integer divisions", n_div, 6)
 
     # ------------------------------------------------------------------ R25e
     memo = {}
@@ -530,9 +571,10 @@ def run(ctx):
             e = e[2]
         nk = key(e)
         # a named local of the caller (for audited cross-function invariants)
-        nm = arg_name(f, t["args"][argi])
-        if nm and (p, "name:" + nm) in AUDITED_ATOMS:
-            return "audited: " + AUDITED_ATOMS[(p, "name:" + nm)]
+        # audited cross-function invariants are keyed by the call and the argument position, not by a local's name
+        site_key = "arg:" + "::".join((t.get("raw") or t.get("callee") or "?").split("::")[-2:]) + f"#{argi}"
+        if (p, site_key) in AUDITED_ATOMS:
+            return "audited: " + AUDITED_ATOMS[(p, site_key)]
         # a local assigned on several paths: every assignment must be an atom constructor result
         if e[0] == "sym" and e[2][0] > f.nargs:
             vals = []
@@ -558,10 +600,8 @@ def run(ctx):
         w = atom_by_dominance(pr, f, b, nk)
         if w:
             return w
-        if (p, norm_text(nk)) in AUDITED_ATOMS:
-            return "audited: " + AUDITED_ATOMS[(p, norm_text(nk))]
-        if (p, nk) in AUDITED_ATOMS:
-            return "audited: " + AUDITED_ATOMS[(p, nk)]
+        if (p, f.unname(norm_text(nk))) in AUDITED_ATOMS:
+            return "audited: " + AUDITED_ATOMS[(p, f.unname(norm_text(nk)))]
         # a parameter: every caller must pass a known atom
         if e[0] == "par" and depth < 5:
             mk = (p, e[1])
@@ -615,4 +655,4 @@ def run(ctx):
                 ck.ob("R25e", f"{p}|{c.split('::')[-1]}({nk[:80]})" + (f" #{o}" if o else ""), bool(why),
                       f"{c.split('::')[-1]}() panics on a pair: its argument must be known to be an atom", site=f.where(b),
                       detail=why or {"argument": nk, "failing": [v for k, v in fails.items() if k[0] == p][:3]})
-    ck.floor("calls of accessors that panic on a pair", n_calls, 25)
+    ck.floor("calls of accessors that panic on a pair", n_calls, 15)
